@@ -1,18 +1,28 @@
 """C05 — P1: every readout on a clean stream is delivered once, however it is chunked."""
-from props import hdlc_model as M, dlde_model as DM
+from props import hdlc_model as M, dlde_model as DM, clean_p1 as CP
 from pyvc import run
 
 def build(repo, tier, seed):
-    r = M.groups_result([("p1reader", DM.group_p1reader, (repo,)), ("readout", DM.group_readout, (repo,))],
+    r = M.groups_result([("p1reader", DM.group_p1reader, (repo,)), ("readout", DM.group_readout, (repo,)), ("clean p1 stream", CP.group_clean_p1, (repo,))],
                         select=lambda oid: "ModeDReader" in oid or "is_valid" in oid or "__init__" in oid or "_ident_pattern" in oid)
     r.functions = sorted(set(DM.P1_FUNCS) | {o.func for o in r.obligations if o.func})
-    r.level = "other"
-    r.explanation = ("C05: proved deductively, for every state and chunk: the P1 reader's buffer/line-step contracts with a ghost input stream - unconsumed input is the tail of the stream, "
-                     "collected octets are a contiguous stream segment starting with a complete ASCII identification line, every returned readout is byte-identical to a contiguous segment "
-                     "from an identification line to a line starting with '!', no complete line is left unconsumed, sizes stay within the bound (so the guard cannot trip inside a readout "
-                     "shorter than the bound), the loop terminates; DataReadout.is_valid postcondition (iv) gives validity of well-formed readouts. "
-                     "The whole-history composition (every readout of a clean stream exactly once, any chunking) is run as a BOUNDED stand-in on the real reader.")
-    r.not_decided = ["lemma clean_p1_stream is bounded, not proved"]
+    r.level = "proof"
+    r.explanation = ("C05: (1) for every state and chunk: the P1 reader's buffer/line-step contracts with a ghost input stream - unconsumed input is the tail of the stream, collected octets are a contiguous stream "
+                     "segment starting with a complete ASCII identification line, every returned readout is byte-identical to a contiguous segment from an identification line to a line starting with '!', no complete line is "
+                     "left unconsumed, sizes stay within the bound, the loop terminates; DataReadout.is_valid postcondition (iv) gives validity of well-formed readouts. (2) The clean-stream lemma is a second contract of the "
+                     "real ModeDReader.read() (props/clean_p1.py), proved on its real body: on a stream that from A0 on consists of well-formed readouts back to back (described line by line with ghost functions in_readout / "
+                     "readout_start / readouts_before of the line starts), with STATE(g) = 'the unconsumed octets are the line in progress, hunt mode iff not inside a readout, the collected octets are the stream since the "
+                     "readout started', read(chunk) takes STATE(g) to STATE(g+len(chunk)) and returns exactly one DataReadout per end line consumed, in order, byte-identical to the stream from its identification line to the "
+                     "end of its end line; the length guard never trips. A new reader inside the tail of a readout (no '/' in the tail) drops everything up to A0 and reaches STATE there. Same predicate before and after each "
+                     "call, so the calls compose for every splitting (sequential composition). Unbounded in the number of readouts, lines and chunks; each readout at most 8191 octets.")
+    r.assumptions = ["clean P1 stream = the hypotheses CLEAN(p) of props/clean_p1.py at every line start p >= A0 (a line outside a readout is an ASCII identification line; inside, a line starting with '!' ends the readout; "
+                     "every readout and identification line fits in 8191 octets; the transmission ends with a complete line; the leading tail holds no '/'). The bounded run p1_ideal_check confirms on every generated clean "
+                     "stream that these hypotheses hold for it and that the real reader meets the contract; cover canaries show every kind of line is reachable under them.",
+                     "validity of the returned readouts is C04's contract applied to the returned octets (well-formed readouts carry no '!' before their end line and a correct or absent checksum)",
+                     "the composition over calls (same predicate before and after each call) is the sequential-composition rule, applied by hand"]
+    r.not_decided = []
     b = run.rt_call("C05", "clean_stream_check", {"seed": seed, "n": 150 if tier == "quick" else 3000})
     r.bounded.append(b if "name" in b else {"name": "clean_stream_check", "error": b.get("error", b)})
+    b = run.rt_call("C05", "p1_ideal_check", {"seed": seed, "n": 150 if tier == "quick" else 3000})
+    r.bounded.append(b if "name" in b else {"name": "p1_ideal_check", "error": b.get("error", b)})
     return r
